@@ -5,7 +5,7 @@ from pathlib import Path
 VERIF = Path(__file__).resolve().parent.parent
 PROPS = [json.loads(l)["id"] for l in open(VERIF / "properties.jsonl")]
 
-HOOK_COMMITS = ["41fbf90", "f0c0cb5"]
+HOOK_COMMITS = ["41fbf90", "f0c0cb5", "66fa2c6"]
 
 MC = "model_checking"
 CHECKS = {
@@ -45,8 +45,8 @@ CHECKS = {
         note="refcount / collectability / no-crash clauses are measurements on explored behaviours, not model-level facts (DESIGN.md section 6); quick tier replays every fifth behaviour",
         ref="3.6, 4 C06"),
     "C07": dict(
-        technique="TLA+ specs of the frame snapshot protocol vs. a racing target (FrameSnapshot.tla) and of unwrap_thread's alive/ident protocol with ident reuse (ThreadUnwrap.tla); TLC over every interleaving; interleavings replayed on real threads blocked at guarded probes; blocked-thread exactness; free-running stress in a subprocess",
-        text="no crash / no use-after-free / snapshot consistent with one instruction position / bounded attempts / frames belong to the thread hold on the model for every interleaving (the config without the code's GIL assumption shows the use-after-free and is reported as an assumption); hundreds of interleavings are forced on a real target and a real inspector (3.11, 3.12) and all ThreadUnwrap behaviours incl. ident reuse on 3.9-3.12; blocked threads depth 1..5 x 0..3 managers, unstarted, finished",
+        technique="TLA+ specs of the frame snapshot protocol vs. a racing target (FrameSnapshot.tla) and of unwrap_thread's alive/ident protocol with ident reuse (ThreadUnwrap.tla); TLC over every interleaving; interleavings replayed on real threads blocked at guarded probes; blocked-thread exactness; free-running stress in a subprocess; trace validation (FrameSnapshotTrace.tla) of thousands of free-running inspect_frame calls recorded through the probes, each with the target position the probe saw",
+        text="no crash / no use-after-free / snapshot consistent with one instruction position / bounded attempts / frames belong to the thread hold on the model for every interleaving (the config without the code's GIL assumption shows the use-after-free and is reported as an assumption); hundreds of interleavings are forced on a real target and a real inspector (3.11, 3.12) and all ThreadUnwrap behaviours incl. ident reuse on 3.9-3.12; blocked threads depth 1..5 x 0..3 managers, unstarted, finished; every recorded free-running call is a run of the inspector automaton (no read after a failed re-check, trimming depth from CPython's exception table for this attempt, bounded attempts), a corrupted trace is shown to be rejected",
         note="'never crashes' is empirical over the replayed schedules and the stress; F10 fixed; F15 (3.9/3.10 implementation has no protocol; stress can SIGSEGV) known finding; probe placement preserves the atomicity of re-check + slot read",
         ref="3.5, 4 C07"),
     "C08": dict(
